@@ -697,8 +697,26 @@ func (x *Exec) builtin(b *ssa.Builtin, common *ssa.CallCommon, args []Val, resT 
 		x.markWrittenAt(dn, m)
 		return Val{Typ: resT}
 	case "copy":
-		// copy(dst, src): contents of dst havocked
-		if stt, ok := common.Args[0].Type().Underlying().(*types.Slice); ok && len(args[0].L) == 3 {
+		// copy(dst, src): n = min(len(dst), len(src)) elements of src land at the start of dst, the
+		// rest of dst's backing array keeps its contents (src is read before dst is written; Go's
+		// copy handles overlap as if through a temporary).
+		stt, ok := common.Args[0].Type().Underlying().(*types.Slice)
+		if ok && len(args[0].L) == 3 && len(args[1].L) == 3 {
+			n := x.sc.Define("copyn", "Int", Ite("(<= "+args[0].L[2]+" "+args[1].L[2]+")", args[0].L[2], args[1].L[2]))
+			for _, l := range x.eng.layout(stt.Elem()) {
+				name := x.eName(stt.Elem(), l.Path)
+				sort := "(Array Int (Array Int " + l.Sort + "))"
+				a := st.Get(name, sort)
+				row := x.sc.Fresh("copyrow", "(Array Int "+l.Sort+")")
+				dOff, sOff := args[0].L[1], args[1].L[1]
+				x.sc.Assume(reach, "(forall ((i Int)) (! (=> (and (<= "+dOff+" i) (< i (+ "+dOff+" "+n+"))) (= (select "+row+" i) "+Select(Select(a, args[1].L[0]), "(+ "+sOff+" (- i "+dOff+"))")+")) :pattern ((select "+row+" i))))")
+				x.sc.Assume(reach, "(forall ((i Int)) (! (=> (not (and (<= "+dOff+" i) (< i (+ "+dOff+" "+n+")))) (= (select "+row+" i) "+Select(Select(a, args[0].L[0]), "i")+")) :pattern ((select "+row+" i))))")
+				st.Set(name, sort, Store(a, args[0].L[0], row))
+				x.markWrittenAt(name, args[0].L[0])
+			}
+			return Val{Typ: resT, L: []string{n}}
+		}
+		if ok && len(args[0].L) == 3 {
 			for _, l := range x.eng.layout(stt.Elem()) {
 				name := x.eName(stt.Elem(), l.Path)
 				sort := "(Array Int (Array Int " + l.Sort + "))"
